@@ -584,11 +584,12 @@ def run():
                 ck.count("corr-tree-wrap", json.dumps(sp))
                 ml = mlen[sp[2]]
                 ml = None if ml == "None" else ml[1]
-                # model: the span is located iff the id names a file and both ends are within its length
-                want_located = ml is not None and sp[0] <= sp[1] <= ml
+                # model: the span is located iff the id names a file (the conversion clamps both ends to its -- ASCII -- length)
+                want_located = ml is not None and sp[0] <= sp[1]
                 got_located = "panic" not in r and r.get("location") is not None
                 got_removed = "panic" not in r and r.get("span") is None
-                if want_located != got_located or (ml is None) != got_removed:
+                clamped_ok = (not got_located) or (r["span"]["start"], r["span"]["end"]) == (min(sp[0], ml), min(sp[1], ml))
+                if want_located != got_located or (ml is None) != got_removed or not clamped_ok:
                     ck.violation("SourceTree with 65537 files: span %s: the model says id %d names a text of %s characters, the implementation answers %s" % (sp, sp[2], ml, str(r)[:160]),
                                  {"span": sp, "model_len": ml, "impl": str(r)[:300], "kind": "correspondence"})
         else:
